@@ -62,7 +62,7 @@ def mid_surrogate(line, col):
     return 0xDC00 <= unit <= 0xDFFF
 
 
-def script_case(idx, c, ws, origin):
+def script_case(idx, c, ws, origin, warm=False):
     files = wcommon.files_of(c)
     f = c["files"][origin]
     positions = []
@@ -72,8 +72,19 @@ def script_case(idx, c, ws, origin):
             continue
         positions.append([li, col])
         meta.append((li, col, k, info))
-    ops = [{"op": "open", "file": f["name"], "text": files[f["name"]]},
-           {"op": "sweep", "file": f["name"], "kinds": ["hover"], "positions": positions}]
+    ops = []
+    if warm:
+        # the same state reached along a longer history: the other files of the tree were opened (and closed) first, so they are
+        # in the loader's cache when the hovered document's tree is resolved, and the hovered document was changed and changed back
+        for g in reversed(c["files"]):
+            if g["name"] != f["name"]:
+                ops.append({"op": "open", "file": g["name"], "text": files[g["name"]]})
+                ops.append({"op": "close", "file": g["name"]})
+    ops.append({"op": "open", "file": f["name"], "text": files[f["name"]]})
+    if warm:
+        ops.append({"op": "change", "file": f["name"], "text": files[f["name"]] + "\n; typed\n"})
+        ops.append({"op": "change", "file": f["name"], "text": files[f["name"]]})
+    ops.append({"op": "sweep", "file": f["name"], "kinds": ["hover"], "positions": positions})
     return {"id": str(idx), "files": files, "workspace": ws, "ops": ops}, meta
 
 
@@ -207,22 +218,25 @@ def run_cases(run, cases, table=None):
     for ci, c in enumerate(cases):
         for ws in (False, True):
             for origin in range(len(c["files"])):
-                hc, meta = script_case(len(hcases), c, ws, origin)
-                hcases.append(hc)
-                metas.append((ci, ws, origin, meta))
+                for warm in ((False, True) if (ci + origin) % 2 == 0 or c.get("_warm") else (False,)):
+                    if c.get("_warm") is not None and warm != c["_warm"]:
+                        continue
+                    hc, meta = script_case(len(hcases), c, ws, origin, warm)
+                    hcases.append(hc)
+                    metas.append((ci, ws, origin, meta, warm))
     results = run.harness("script", hcases, timeout=3000)
     nprobes = 0
-    for hc, (ci, ws, origin, meta), res in zip(hcases, metas, results):
+    for hc, (ci, ws, origin, meta, warm), res in zip(hcases, metas, results):
         c = cases[ci]
         f = c["files"][origin]
         scope_root = 0 if ws else origin
         tabs = wcommon.tables_index(c["tables"][scope_root])
-        key = vf.digest([hc["files"], ws, origin])
+        key = vf.digest([hc["files"], ws, origin, warm])
         run.count(key, len(meta) > 0)
         if "panic" in res:
             run.diverge("panic", "server panicked: " + res["panic"][:300], {"spec_case": c, "ws": ws, "origin": origin}, None)
             continue
-        sweep = res["steps"][1].get("sweep") or []
+        sweep = res["steps"][-1].get("sweep") or []
         if len(sweep) != len(meta):
             vf.die_tooling("sweep returned %d replies for %d probes" % (len(sweep), len(meta)))
         seen = set()
@@ -238,12 +252,13 @@ def run_cases(run, cases, table=None):
             CHECKED[k] += 1
             for sig, what in divs:
                 if table is not None:
-                    table[(sig, ws, "root" if origin == 0 else "included")] += 1
+                    table[(sig, ws, "root" if origin == 0 else "included", "warm" if warm else "cold")] += 1
                 if sig in seen:
                     continue
                 seen.add(sig)
-                run.diverge(sig, "%s  [file %s line %d col %d: %r; workspace root %s]" % (what, f["name"], li + 1, col, f["lines"][li], ws),
-                            {"spec_case": c, "ws": ws, "origin": origin, "probe": [li, col, k, info]}, it["r"])
+                run.diverge(("after-history:" if warm else "") + sig, "%s  [file %s line %d col %d: %r; workspace root %s%s]" % (
+                                what, f["name"], li + 1, col, f["lines"][li], ws, "; the other files were opened and closed first, the document changed and changed back" if warm else ""),
+                            {"spec_case": c, "ws": ws, "origin": origin, "warm": warm, "probe": [li, col, k, info]}, it["r"])
     return nprobes
 
 
@@ -253,7 +268,7 @@ def main(args):
     if args.replay:
         with open(args.replay) as f:
             rp = json.load(f)
-        cases = [rp["case"]["spec_case"]]
+        cases = [dict(rp["case"]["spec_case"], _warm=bool(rp["case"].get("warm")))]
     else:
         thorough = run.tier == "thorough"
         cases = wcommon.gen(run, 60 if not thorough else 1200, maxtx=3)
@@ -274,7 +289,7 @@ def main(args):
     run.sample({"files": wcommon.files_of(c), "totals_of_root_tree": c["tables"][0]["totals"][:6], "postings": c["tables"][0]["postings"], "txcount": c["tables"][0]["txcount"]})
     run.rule = ("one evaluation per (workspace simulated by WorkspaceFiles.tla, workspace root on/off, file the hovers are requested from); every hoverable lexeme of that file "
                 "is probed at its first, middle and last character; non-trivial = the file has at least one hoverable lexeme; distinct by (files, root, origin)")
-    run.assumptions = ["open documents equal their files on disk", "every file is a member of main.journal's include tree",
+    run.assumptions = ["open documents equal their files on disk (half of the evaluations reach that state along a longer history: other files opened and closed first, the document changed and changed back)", "every file is a member of main.journal's include tree",
                        "hover on an account is requested on posting lines (an account directive is not a posting)",
                        "a zero total may be shown as 0 or omitted"]
     run.finish(confirm=lambda d: confirm(run, d))
@@ -283,12 +298,13 @@ def main(args):
 def confirm(run, d):
     cs = d["case"]
     c = cs["spec_case"]
-    hc, meta = script_case(0, c, cs["ws"], cs["origin"])
+    warm = bool(cs.get("warm"))
+    hc, meta = script_case(0, c, cs["ws"], cs["origin"], warm)
     res = run.harness("script", [hc])[0]
     tabs = wcommon.tables_index(c["tables"][0 if cs["ws"] else cs["origin"]])
     if "panic" in res:
         return d["sig"] == "panic"
-    for (li, col, k, info), it in zip(meta, res["steps"][1].get("sweep") or []):
-        if any(sig == d["sig"] for sig, _ in evaluate_probe(k, info, it["r"], tabs)):  # noqa
+    for (li, col, k, info), it in zip(meta, res["steps"][-1].get("sweep") or []):
+        if any((("after-history:" if warm else "") + sig) == d["sig"] for sig, _ in evaluate_probe(k, info, it["r"], tabs)):  # noqa
             return True
     return False
